@@ -122,6 +122,16 @@ def step (line : String) : String :=
       | .error => "err fail"
       | .panic => "panic"
     | _, _, _, _ => "bad-op"
+  | ["hfetch", desc, offset, size, hi, shards] =>
+    match bool? desc, offset.toNat?, size.toNat?, hi.toNat?,
+        (shards.splitOn "|").mapM (fun sh => if sh = "z" then some [] else (sh.splitOn "+").mapM parseROut) with
+    | some desc, some offset, some size, some hi, some shs =>
+      match handlerFetch SV.Extracted.C19.makeProtoDocsNilSafe SV.Extracted.C19.proxyAsyncPaginates desc offset size hi shs with
+      | .ok done docs q => s!"ok {fmtBool done} docs={fmtIds docs} hist={fmtHist q.hist}"
+      | .notFound => "err not-found"
+      | .error => "err fail"
+      | .panic => "panic"
+    | _, _, _, _, _ => "bad-op"
   | ["pstart", shards] =>
     match (shards.splitOn "|").mapM (fun sh => if sh = "z" then some [] else sh.toList.mapM (fun c => if c = '1' then some true else if c = '0' then some false else none)) with
     | some shs =>
